@@ -152,6 +152,32 @@ func unwrap(value reflect.Value) reflect.Value {
 	return value
 }
 
+// typedNils gives every untyped nil argument the type of the parameter it is
+// passed for (a nil pointer, slice, map, ...): reflect.Call refuses a nil of
+// interface type for any other parameter type.
+func typedNils(fn reflect.Value, in []reflect.Value) []reflect.Value {
+	t := fn.Type()
+	for i, arg := range in {
+		if arg.Kind() != reflect.Interface || !arg.IsNil() {
+			continue
+		}
+		var param reflect.Type
+		switch {
+		case t.IsVariadic() && i >= t.NumIn()-1:
+			param = t.In(t.NumIn() - 1).Elem()
+		case i < t.NumIn():
+			param = t.In(i)
+		default:
+			continue
+		}
+		switch param.Kind() {
+		case reflect.Ptr, reflect.Slice, reflect.Map, reflect.Func, reflect.Chan, reflect.Interface:
+			in[i] = reflect.Zero(param)
+		}
+	}
+	return in
+}
+
 func FetchFnNil(from interface{}, name string) reflect.Value {
 	if v := reflect.ValueOf(from); !v.IsValid() {
 		return v
